@@ -194,6 +194,28 @@ def run(prop, tier):
         replayed += es["cases"]
         per_cfg[cfg] = {"programs": es["cases"], "classes": es["classes"]}
         samples += [{"family": "existential", "source": x} for x in es["samples"][:1]]
+    if prop in ("C03", "C01"):
+        # the F-omega layer: spec/ZyPoly.tla (kinding, instantiation, normalisation, seals, alpha-correspondence)
+        cfg = "MC_ZyPoly_small.cfg" if tier == "quick" else "MC_ZyPoly_large.cfg"
+        tout = os.path.join(W, "poly.out")
+        res = lib.run_tlc("ZyPoly.tla", cfg, tout, workers=4, coverage=False, timeout=3000)
+        pcases = os.path.join(W, "poly.cases.ndjson")
+        n = lib.extract_replay(tout, pcases)
+        os.remove(tout)
+        require(n >= 5000, "too few polymorphic programs: %d" % n)
+        psum = os.path.join(W, "poly.%s.summary.json" % prop)
+        lib.zyconf(["replay-poly", pcases, psum], timeout=6000)
+        ps = json.load(open(psum))
+        require(all(ps["classes"].get(k, 0) > 0 for k in ("accepted-and-run", "model-kind-checker-kind", "model-mismatch-checker-mismatch", "model-unbound-resolver-unbound")),
+                "polymorphism replay exercised too few outcomes: %s" % ps["classes"])
+        for f in ps["findings"]:
+            if f.get("property") == prop:
+                out.add_findings([f])
+        states += res["distinct"]
+        transitions += res["generated"]
+        replayed += ps["cases"]
+        per_cfg[cfg] = {"programs": ps["cases"], "classes": ps["classes"]}
+        samples += [{"family": "polymorphism", "source": x} for x in ps["samples"][1:2]]
     if prop == "C01":
         f, extra = corpus(out, tier)
         out.add_findings(f)
